@@ -394,8 +394,9 @@ Print Assumptions C10_fitness_adjustment_monotone.
 
 (* numParents = int(math.Floor(SurvivalThresh * float64(n) + 1)) >= 1 (the hypothesis of
    C10_champion_is_maximal and of C02's survivors_ok).  For 0 <= SurvivalThresh <= 2^29 and a species
-   of fewer than 2^31 organisms the value lies in [1, 2^61], inside the range where the model's
-   int(x) is Go's int(x). *)
+   of fewer than 2^31 organisms the value lies in [1, 2^61], inside the range [-2^63, 2^63) in which
+   Go's int(x) truncates (beyond it the result is implementation-defined; the model follows amd64,
+   F64.f_trunc_Z, platform assumption "amd64-cvttsd2sq": math.MinInt64). *)
 Theorem C10_num_parents_positive :
   forall o n,
     PrimFloat.leb 0%float (o_survival o) = true -> PrimFloat.leb (o_survival o) 0x1p+29%float = true ->
@@ -404,24 +405,34 @@ Theorem C10_num_parents_positive :
 Proof. intros o n. exact (FloatMono.np_of_small (o_survival o) n). Qed.
 Print Assumptions C10_num_parents_positive.
 
-(* for every species size (also sizes no Go slice can have) and 0 <= SurvivalThresh <= 2^900 *)
+(* for every species size (also sizes no Go slice can have: float64(n) stays in [0, 2^63]) and
+   0 <= SurvivalThresh <= 1/2: the sum SurvivalThresh * float64(n) + 1 stays below 2^63.  (Before the
+   conversion was modelled as on amd64 this was stated for SurvivalThresh <= 2^900; that was true of
+   the totalised int(x) only.) *)
 Theorem C10_num_parents_positive_any_size :
   forall o n,
-    PrimFloat.leb 0%float (o_survival o) = true -> PrimFloat.leb (o_survival o) 0x1p+900%float = true ->
+    PrimFloat.leb 0%float (o_survival o) = true -> PrimFloat.leb (o_survival o) 0x1p-1%float = true ->
     0 <= n -> 1 <= num_parents o n.
 Proof. intros o n. exact (FloatMono.np_of_pos (o_survival o) n). Qed.
 Print Assumptions C10_num_parents_positive_any_size.
 
-(* a bound on SurvivalThresh is needed: 2^1023 * 2 overflows, Floor(+Inf) = +Inf and the model's
-   int(+Inf) is 0 (in Go the conversion is implementation-defined) *)
-Example C10_example_num_parents_overflow : np_formula 0x1p+1023%float 2 = 0.
+(* a bound on SurvivalThresh is needed: 2^1023 * 2 overflows, Floor(+Inf) = +Inf and int(+Inf) is
+   math.MinInt64 = -2^63 on amd64 (the Go specification leaves the conversion implementation-defined);
+   with a negative numParents adjustFitness indexes s.Organisms[numParents] and panics *)
+Example C10_example_num_parents_overflow : np_formula 0x1p+1023%float 2 = - 2 ^ 63.
+Proof. vm_compute. reflexivity. Qed.
+
+(* no positive threshold works for every n: SurvivalThresh = 1 and the largest Go int, n = 2^63 - 1,
+   give float64(n) = 2^63, 1 * 2^63 + 1 = 2^63 and int(2^63) = math.MinInt64 *)
+Example C10_example_num_parents_huge_species : np_formula 1%float (2 ^ 63 - 1) = - 2 ^ 63.
 Proof. vm_compute. reflexivity. Qed.
 
 (* The champion's raw fitness is maximal UP TO ROUNDING TIES, without the order-preservation
    hypothesis of C10_champion_max_raw_partial and with the float side conditions of
    C10_champion_is_maximal (numParents >= 1, adjusted fitness not NaN) discharged.  Hypotheses on the
-   inputs only: SurvivalThresh in [0, 2^900]; AgeSignificance positive and finite; every species
-   lists its members once and has fewer than 2^63 of them; members are not marked for elimination,
+   inputs only: SurvivalThresh in [0, 2^29]; AgeSignificance positive and finite; every species
+   lists its members once and has fewer than 2^31 of them (so SurvivalThresh * n + 1 < 2^61 and
+   int(.) is an in-range conversion: C10_num_parents_positive); members are not marked for elimination,
    their raw fitness is >= 0 (not NaN; +infinity allowed) and their highest fitness is not NaN.
    Then for the first organism [champ] of every species after prepare, with xc the organism it was
    before: no member x of the species has an adjusted fitness strictly greater than xc's, and a
@@ -434,10 +445,10 @@ Theorem C10_champion_raw_maximal_up_to_rounding :
     NoDup (map sp_id (p_species p)) ->
     (forall s k, In s (p_species p) -> In k (sp_orgs s) -> exists x, hget (p_heap p) k = Ok x /\ o_species x = sp_id s) ->
     (forall k x, hget (p_heap p) k = Ok x -> o_super x = 0) ->
-    (PrimFloat.leb 0%float (o_survival o) = true /\ PrimFloat.leb (o_survival o) 0x1p+900%float = true /\
+    (PrimFloat.leb 0%float (o_survival o) = true /\ PrimFloat.leb (o_survival o) 0x1p+29%float = true /\
      PrimFloat.ltb 0%float (o_age_sig o) = true /\ PrimFloat.ltb (o_age_sig o) infinity = true) ->
     (forall s, In s (p_species p) ->
-       NoDup (sp_orgs s) /\ zlen (sp_orgs s) < 2 ^ 63 /\
+       NoDup (sp_orgs s) /\ zlen (sp_orgs s) < 2 ^ 31 /\
        forall k x, In k (sp_orgs s) -> hget (p_heap p) k = Ok x ->
                    o_elim x = false /\ PrimFloat.leb 0%float (o_fit x) = true /\ PrimFloat.is_nan (o_highest x) = false) ->
     forall sp champ, In sp (p_species p1) -> first_org (p_heap p1) sp = Ok champ ->
@@ -459,10 +470,10 @@ Theorem C10_best_of_species_survives_up_to_rounding :
   forall o gen p x st p' x' st',
     next_epoch o gen p x st = Ok ((p', x'), st') ->
     pop_ok p ->
-    (PrimFloat.leb 0%float (o_survival o) = true /\ PrimFloat.leb (o_survival o) 0x1p+900%float = true /\
+    (PrimFloat.leb 0%float (o_survival o) = true /\ PrimFloat.leb (o_survival o) 0x1p+29%float = true /\
      PrimFloat.ltb 0%float (o_age_sig o) = true /\ PrimFloat.ltb (o_age_sig o) infinity = true) ->
     (forall s, In s (p_species p) ->
-       NoDup (sp_orgs s) /\ zlen (sp_orgs s) < 2 ^ 63 /\
+       NoDup (sp_orgs s) /\ zlen (sp_orgs s) < 2 ^ 31 /\
        forall k x, In k (sp_orgs s) -> hget (p_heap p) k = Ok x ->
                    o_elim x = false /\ PrimFloat.leb 0%float (o_fit x) = true /\ PrimFloat.is_nan (o_highest x) = false) ->
     exists p1 sorted best st1,
@@ -489,7 +500,7 @@ Example C10_example_up_to_rounding_hyps :
   | Ok (p, s) =>
     match set_fitness (p_heap p) (p_orgs p) [0x1.cp+2; 0x1.c000000000001p+2; 1; 2; 3; 4]%float with
     | Ok h =>
-      PrimFloat.leb 0 (o_survival (ex_opts 6 15 0)) && PrimFloat.leb (o_survival (ex_opts 6 15 0)) 0x1p+900 &&
+      PrimFloat.leb 0 (o_survival (ex_opts 6 15 0)) && PrimFloat.leb (o_survival (ex_opts 6 15 0)) 0x1p+29 &&
       PrimFloat.ltb 0 (o_age_sig (ex_opts 6 15 0)) && PrimFloat.ltb (o_age_sig (ex_opts 6 15 0)) infinity &&
       forallb (fun s => forallb (fun k => match hget h k with
                                           | Ok x => negb (o_elim x) && PrimFloat.leb 0 (o_fit x) && negb (PrimFloat.is_nan (o_highest x))
